@@ -74,6 +74,19 @@ def oracle_sequential(spec, res):
             if active is not None or last_finished != len(cmds) - 1:
                 return "connection closed although command %r is active / only %d of %d commands finished" % (active, last_finished + 1, len(cmds))
             closed = True
+    # a capture finishes asynchronously: between its start and its finish a framebuffer update must have been completed
+    # (the reply to its request); a later command's bytes before that would be bytes sent before the capture finished
+    cur, seen_commit = None, False
+    for now, t in tl:
+        if t.startswith("start:"):
+            cur, seen_commit = int(t[6:]), False
+        elif t.startswith("commit:"):
+            seen_commit = True
+        elif t.startswith("finish:"):
+            i = int(t[7:])
+            if i < len(cmds) and cmds[i].split(":")[0] in ("captureScreen", "captureRegion") and not seen_commit:
+                return "command %d (%s) finished without any completed update after its request: the commands after it ran before the capture was done" % (i, cmds[i].split(":")[0])
+            cur = None
     # the bytes of each command are the ones the command, as written at that place, stands for (keys and pointer)
     per = {}
     cur = None
